@@ -1020,6 +1020,20 @@ func oC10(ix *Index) []Violation {
 			}
 		}
 	}
+	// "jobs already pending still run": an accepted job of a closed queue that was neither cancelled
+	// nor possibly purged has run once the (Running) worker is at rest
+	if ix.finalRunning() && !ix.R.Rep.Deadlock {
+		closedQ := map[int]bool{}
+		for _, qc := range ix.ByOp["qclose"] {
+			closedQ[qc.CallEv.Q] = true
+		}
+		for _, n := range ix.JobNums {
+			j := ix.Jobs[n]
+			if closedQ[j.Q] && j.Accepted == 1 && len(j.Enters) == 0 && !ix.optional(j, ix.N) {
+				out = append(out, v("C10", "pending-on-closed-queue-never-ran", "job %d was accepted on queue %d, whose Close was called; it was never cancelled or purged, yet it never ran although the worker is Running and at rest; final=%+v", n, j.Q, *ix.Final))
+			}
+		}
+	}
 	if ix.R.Rep.Deadlock {
 		for _, c := range ix.blockedCalls() {
 			if c.Op == "wait" || c.Op == "result" || c.Op == "err" {
